@@ -13,6 +13,7 @@ from symx.runner import F, JobAcc
 PROPERTY = "C05"
 UNIT_LEVEL_SIGS = r"unit:"  # unit-lemma counter-examples are reported as unit-level, never as VIOLATION (DESIGN 6 C04 U1)
 BUDGET = {"quick": 170, "thorough": 1700}
+JOB_CLASS = lambda j: j.get("kind") or f"{j['cfg'][0]}-{'flip' if j['cfg'][2] else 'noflip'}"  # classes that take turns when the budget runs short
 META = {
     "explanation": "same bounded symbolic exploration of the real ThresholdOptimizer.fit + _pmf_predict as C04 (symbolic scores, one path per weak "
                    "ordering class). Per path the harness takes an exact rational model of the path's score ordering, recomputes INDEPENDENTLY (own metric "
